@@ -18,12 +18,12 @@ Representation choices (DESIGN §3.1, §3.6):
 * Hash maps (`HashMap<BucketKey, BucketState>`, `HashSet<u64>`) and the bucket `Vec`s of the
   intermediates are represented by *key-sorted association lists*: every consumer in the code
   sorts with a total order before the result is observable, so the iteration/insertion order
-  is not.  What is mirrored exactly is **where** filters, limits and thresholds are applied:
-  `TermsCollector::finish` (min_doc_count, size — per segment), `RareTermsCollector::finish`
-  and the rare_terms merge arm (max_doc_count, size — per segment and per merge step),
-  `HistogramCollector::finish` / `DateHistogramCollector::finish` (min_doc_count, bounds — per
-  segment), `TopHitsCollector::finish` / `merge_top_hits` (`from`/`size` window per segment and
-  per merge step), `finalize_response` (terms/rare_terms size; composite after/size/after_key).
+  is not.  What is mirrored exactly is **where** filters, limits and thresholds are applied.
+  Since the repairs 0d5edb4 / a3ebc01 that is `finalize_response` only: terms / histogram /
+  date_histogram `min_doc_count`, rare_terms `max_doc_count`, terms / rare_terms `size`, the
+  top_hits `from`/`size` window, composite after/size/after_key; the segments' `finish()` keep
+  every bucket (rare_terms: `doc_count > 0`) and the best `from + size` hits.  The mechanism of
+  the code before the repairs is kept in `Core/AggsLegacy.lean`.
 * Per segment the collectors are streaming (doc by doc); here a segment's bucket is the
   sub-list of the segment's documents that fall into it (`docs.filter (inB b k)`), its
   children are the child collectors run on that sub-list.
@@ -31,7 +31,8 @@ Representation choices (DESIGN §3.1, §3.6):
 * `Doc.id` is the position of the document in the index (segment order, then position in the
   segment — a commit's documents are stored in id order), the tie-break of top_hits.
 * `MAX_BUCKETS = 10_000`, the t-digest mode of percentiles (> 256 values), significant_terms,
-  sampling, `shard_size` and pipeline aggregations are not modelled.
+  sampling, an explicit `shard_size` (per-segment truncation that is approximate by design) and
+  pipeline aggregations are not modelled.
 -/
 namespace SL.Aggs
 
@@ -257,10 +258,10 @@ inductive DInterval where
   | calendar (u : CalUnit)
 deriving DecidableEq, Repr
 
-/-- `truncate_calendar` (epoch milliseconds).  `strict = true` is the code: the quarter branch
-calls `date.with_month(quarter_start)?` *before* `with_day(1)`, which fails when the quarter's
-first month is shorter than the day of the month (May 31 → "April 31"): the value then has no
-bucket.  `strict = false` is the reference. -/
+/-- `truncate_calendar` (epoch milliseconds).  `strict = true` is the code before a754ee4: the
+quarter branch called `date.with_month(quarter_start)?` *before* `with_day(1)`, which fails when
+the quarter's first month is shorter than the day of the month (May 31 → "April 31"): the value
+then had no bucket.  `strict = false` is the code now (and the reference). -/
 def truncCalendar (strict : Bool) (v : Int) (u : CalUnit) : Option Int :=
   let days := v / msPerDay
   let c := civilFromDays days
@@ -314,16 +315,12 @@ def fillFrom (next : Int → Int) (cur hi : Int) : Nat → List Int
 /-- `v as i64` on a finite float: truncation toward zero -/
 def truncToInt (q : Rat) : Int := if 0 ≤ q then q.floor else q.ceil
 
-/-- `CompositeSource`; `f64col = false` models a histogram source over an `i64` column: the
-collector reads `f64_values`, which is empty for such a column -/
+/-- `CompositeSource`.  `f64col` (is the field an f64 column?) is only read by the legacy
+mechanism: before 71fb08f the collector read `f64_values`, which is empty for an i64 column;
+now it reads `numeric_values` -/
 inductive CSrc (φ : Type) where
   | terms (f : φ)
   | hist (f : φ) (interval : Rat) (f64col : Bool)
-
-/-- a histogram source reads the numeric values of its field whatever the column type -/
-def CSrc.ideal {φ : Type} : CSrc φ → CSrc φ
-  | .terms f => .terms f
-  | .hist f interval _ => .hist f interval true
 
 /-- bucket aggregations -/
 inductive BSpec (φ κ : Type) where
@@ -337,10 +334,9 @@ inductive BSpec (φ κ : Type) where
   | filter (p : Pred φ κ)
   | composite (srcs : List (CSrc φ)) (size : Nat) (after : Option (List (Part κ)))
 
-/-- the request as the reference semantics reads it (composite histogram sources see every
-numeric column; date_histogram: the bounds fill keeps the offset and every value has a quarter) -/
+/-- the request as the reference semantics reads it (date_histogram: the bounds fill keeps the
+offset) -/
 def BSpec.ideal {φ κ : Type} : BSpec φ κ → BSpec φ κ
-  | .composite srcs size after => .composite (srcs.map CSrc.ideal) size after
   | .dhist f iv offset minDoc ext hard missing _ => .dhist f iv offset minDoc ext hard missing true
   | b => b
 
@@ -393,8 +389,7 @@ def rangeKeys (vs : List Rat) : List (Option Rat × Option Rat) → Nat → List
 /-- values of one composite source for a document -/
 def srcParts (d : Doc φ κ) : CSrc φ → List (Part κ)
   | .terms f => (d.kw f).map Part.str
-  | .hist f interval f64col =>
-    if f64col then (d.num f).map (fun v => Part.num ((v / interval).floor * interval)) else []
+  | .hist f interval _ => (d.num f).map (fun v => Part.num ((v / interval).floor * interval))
 
 /-- `build_composite_keys`: cartesian product of the per-source values -/
 def combos : List (List (Part κ)) → List (List (Part κ))
@@ -416,11 +411,11 @@ def keysOf (b : BSpec φ κ) (d : Doc φ κ) : List (Key κ) :=
         match hard with
         | some (lo, hi) => !(decide (v < lo) || decide (hi < v))
         | none => true)).map (fun v => Key.num (histId interval offset v))
-  | .dhist f iv offset _ _ hard missing ideal =>
+  | .dhist f iv offset _ _ hard missing _ =>
     (((numVals f (missing.map (fun (m : Int) => (m : Rat))) d).map truncToInt).filter (fun v =>
         match hard with
         | some (lo, hi) => !(decide (v < lo) || decide (hi < v))
-        | none => true)).filterMap (fun v => (dateBucket (!ideal) iv offset v).map Key.num)
+        | none => true)).filterMap (fun v => (dateBucket false iv offset v).map Key.num)
   | .filter p => if p.eval d then [Key.unit] else []
   | .composite srcs _ _ =>
     let per := srcs.map (srcParts d)
@@ -440,7 +435,7 @@ def extraKeys (b : BSpec φ κ) : List (Key κ) :=
   | .dhist _ iv offset _ ext hard _ ideal =>
     match ext.or hard with
     | some (lo, hi) =>
-      match dateBucket (!ideal) iv offset lo, dateBucket (!ideal) iv offset hi with
+      match dateBucket false iv offset lo, dateBucket false iv offset hi with
       | some a, some b =>
         let start := if b < a then b else a
         let stop := if b < a then a else b
@@ -489,32 +484,12 @@ def truncate {α : Type} (size : Option Nat) (l : List α) : List α :=
   | some n => l.take n
   | none => l
 
-/-- sort by `lt`, truncate to `size`, keep those buckets (in key order): the sorted-and-truncated
-`Vec` of the code, re-read as a key-sorted map -/
-def keepTop (lt : (Key κ × Nat × List (Node κ)) → (Key κ × Nat × List (Node κ)) → Bool)
-    (size : Option Nat) (bs : Buckets κ) : Buckets κ :=
-  match size with
-  | none => bs
-  | some n =>
-    let top := ((sortBy lt bs).take n).map (·.1)
-    bs.filter (fun x => decide (x.1 ∈ top))
-
-/-- `XCollector::finish`: what a segment's collector drops before the merge -/
+/-- `XCollector::finish`: what a segment's collector drops before the merge.  Since the
+thresholds moved to `finalize_response` only `RareTermsCollector::finish` filters
+(`doc_count > 0`); terms truncates only by an explicit `shard_size`, which is not modelled -/
 def finishSeg (b : BSpec φ κ) (bs : Buckets κ) : Buckets κ :=
   match b with
-  | .terms _ size minDoc _ => keepTop termsLt size (bs.filter (fun x => decide (minDoc ≤ x.2.1)))
-  | .rare _ maxDoc size =>
-    keepTop rareLt size (bs.filter (fun x => decide (0 < x.2.1) && decide (x.2.1 ≤ maxDoc)))
-  | .hist _ _ _ minDoc _ _ _ => bs.filter (fun x => decide (minDoc ≤ x.2.1))
-  | .dhist _ _ _ minDoc _ _ _ _ => bs.filter (fun x => decide (minDoc ≤ x.2.1))
-  | _ => bs
-
-/-- the part of a `merge_intermediate_in_place` arm that runs after `merge_bucket_lists`
-(no `shard_size` in the model, so the terms arm only re-sorts) -/
-def mergePost (b : BSpec φ κ) (bs : Buckets κ) : Buckets κ :=
-  match b with
-  | .rare _ maxDoc size =>
-    keepTop rareLt size (bs.filter (fun x => decide (0 < x.2.1) && decide (x.2.1 ≤ maxDoc)))
+  | .rare _ _ _ => bs.filter (fun x => decide (1 ≤ x.2.1))
   | _ => bs
 
 /-- composite `after` filter: keys strictly greater than `after` -/
@@ -523,22 +498,10 @@ def afterFilter (after : Option (List (Part κ))) (bs : Buckets κ) : Buckets κ
   | none => bs
   | some a => bs.filter (fun x => Key.lt (Key.parts a) x.1)
 
-/-- `finalize_response` on the merged bucket list: presentation order and limits, and the
-composite `after_key` -/
+/-- `finalize_response` on the merged bucket list: the doc-count thresholds (terms, histogram,
+date_histogram `min_doc_count`; rare_terms `max_doc_count`), presentation order, `size`, and
+the composite `after` / `size` / `after_key` -/
 def finalPost (b : BSpec φ κ) (bs : Buckets κ) : Buckets κ × Option (Key κ) :=
-  match b with
-  | .terms _ size _ _ => (truncate size (sortBy termsLt bs), none)
-  | .rare _ _ size => (truncate size (sortBy rareLt bs), none)
-  | .composite _ size after =>
-    let c := afterFilter after bs
-    if size < c.length then
-      let page := c.take size
-      (page, (page.getLast?).map (·.1))
-    else (c, none)
-  | _ => (bs, none)
-
-/-- reference: thresholds and limits applied once, to the counts over all documents -/
-def specPost (b : BSpec φ κ) (bs : Buckets κ) : Buckets κ × Option (Key κ) :=
   match b with
   | .terms _ size minDoc _ =>
     (truncate size (sortBy termsLt (bs.filter (fun x => decide (minDoc ≤ x.2.1)))), none)
@@ -547,7 +510,17 @@ def specPost (b : BSpec φ κ) (bs : Buckets κ) : Buckets κ × Option (Key κ)
       (bs.filter (fun x => decide (0 < x.2.1) && decide (x.2.1 ≤ maxDoc)))), none)
   | .hist _ _ _ minDoc _ _ _ => (bs.filter (fun x => decide (minDoc ≤ x.2.1)), none)
   | .dhist _ _ _ minDoc _ _ _ _ => (bs.filter (fun x => decide (minDoc ≤ x.2.1)), none)
-  | b => finalPost b bs
+  | .composite _ size after =>
+    let c := afterFilter after bs
+    if size < c.length then
+      let page := c.take size
+      (page, (page.getLast?).map (·.1))
+    else (c, none)
+  | _ => (bs, none)
+
+/-- reference: thresholds and limits applied once, to the counts over all documents — which is
+what `finalize_response` now does -/
+def specPost (b : BSpec φ κ) (bs : Buckets κ) : Buckets κ × Option (Key κ) := finalPost b bs
 
 end Buckets
 
@@ -599,10 +572,10 @@ def mkHit (sort : List (φ × Bool)) (d : Doc φ κ) : List (Option Rat) × Nat 
 /-- heap capacity of `TopHitsCollector` / `merge_top_hits` -/
 def hitsLimit (size fromN : Nat) : Nat := max (max (size + fromN) size) 1
 
-/-- keep the `limit` best, sort, then `skip(from).take(size)` -/
-def hitsWindow (dirs : List Bool) (size fromN : Nat) (hs : List (List (Option Rat) × Nat)) :
+/-- the `limit` best hits in order: what `TopHitsCollector::finish` and `merge_top_hits` keep -/
+def hitsKeep (dirs : List Bool) (size fromN : Nat) (hs : List (List (Option Rat) × Nat)) :
     List (List (Option Rat) × Nat) :=
-  (((sortBy (hitLt dirs) hs).take (hitsLimit size fromN)).drop fromN).take size
+  (sortBy (hitLt dirs) hs).take (hitsLimit size fromN)
 
 mutual
 /-- one segment: run the collectors over the segment's matched documents and `finish` -/
@@ -619,7 +592,7 @@ def collect : Agg φ κ → List (Doc φ κ) → Node κ
   | .percentiles f m _, docs => .vals (sortBy ratLt (docs.flatMap (numVals f m)))
   | .ranks f m _, docs => .vals (sortBy ratLt (docs.flatMap (numVals f m)))
   | .topHits size fromN sort, docs =>
-    .hits docs.length (hitsWindow (sort.map (·.2)) size fromN (docs.map (mkHit sort)))
+    .hits docs.length (hitsKeep (sort.map (·.2)) size fromN (docs.map (mkHit sort)))
   | .bucket b subs, docs => .buckets (finishSeg b (rawBuckets b (collectList subs) docs)) none
 def collectList : Aggs φ κ → List (Doc φ κ) → List (Node κ)
   | .nil, _ => []
@@ -637,10 +610,9 @@ def merge : Agg φ κ → Node κ → Node κ → Node κ
   | .percentiles _ _ _, .vals a, .vals b => .vals (sortBy ratLt (a ++ b))
   | .ranks _ _ _, .vals a, .vals b => .vals (sortBy ratLt (a ++ b))
   | .topHits size fromN sort, .hits ta a, .hits tb b =>
-    .hits (ta + tb) (hitsWindow (sort.map (·.2)) size fromN (a ++ b))
+    .hits (ta + tb) (hitsKeep (sort.map (·.2)) size fromN (a ++ b))
   | .bucket b subs, .buckets x _, .buckets y _ =>
-    .buckets (mergePost b (unionWith Key.lt
-      (fun v w => (v.1 + w.1, mergeList subs v.2 w.2)) x y)) none
+    .buckets (unionWith Key.lt (fun v w => (v.1 + w.1, mergeList subs v.2 w.2)) x y) none
   | _, x, _ => x
 /-- children maps: `Vacant` entries are inserted, `Occupied` ones merged -/
 def mergeList : Aggs φ κ → List (Node κ) → List (Node κ) → List (Node κ)
@@ -657,6 +629,7 @@ def finalize : Agg φ κ → Node κ → Node κ
   | .cardNum _ _, .set vs => .count vs.length
   | .percentiles _ _ ps, .vals vs => .table (ps.map (fun p => (p, percentileOf vs p)))
   | .ranks _ _ ts, .vals vs => .table (ts.map (fun t => (t, percentileRankOf vs t)))
+  | .topHits size fromN _, .hits total hs => .hits total ((hs.drop fromN).take size)
   | .bucket b subs, .buckets bs _ =>
     let r := finalPost b bs
     .buckets (r.1.map (fun x => (x.1, x.2.1, finalizeList subs x.2.2))) r.2
